@@ -839,7 +839,7 @@ func runContract(c *Ctx) {
 			if lp.Exit == nil || isNilConst(lp.PS.Resolve(lp.Exit.Results[1])) {
 				continue
 			}
-			if !(lp.Has("len("+r+")−"+i, token.LEQ, "0", false) || lp.Holds(i+"−len("+r+")", token.LSS, "0")) {
+			if !newProver(p, t, lp).g.entailsLE(i, "len("+r+")", -1) {
 				good = false
 			}
 		}
